@@ -30,7 +30,7 @@ def plan(tier, seed):
 
 def make_case(rng):
     kind = str(rng.choice(["1d", "2d"]))
-    fs = float(rng.choice([0.5, 1.0, 2.5, 4.0, 10.0]))
+    fs = float(rng.choice([0.5, 1.0, 2.5, 4.0, 10.0])) if rng.uniform() < 0.4 else float(np.round(rng.uniform(0.5, 10.0), int(rng.integers(1, 4))))
     L = int(rng.choice([8, 9, 16, 33, 100, 257, 1000, 1001, 4096, 20000]))
     fk = str(rng.choice(["uniform", "random", "log"]))
     nf = int(rng.integers(5, 40))
